@@ -91,7 +91,8 @@ def cases(tier, seed):
                         continue
                     opts.append([gp, rx, fl])
                 out.append({"desc": d, "opts": opts, "source": ["list", "ref_Y", "ref_IR"][k % 3],
-                            "schedules": (li in (0, len(Ls) - 1) and gi == 0) or (tier == "thorough" and mi < 3), "w": len(opts) * nlev})
+                            "schedules": (li in (0, len(Ls) - 1) and gi == 0) or (tier == "thorough" and mi < 3), "w": len(opts) * nlev,
+                            "default_output": li == 0 and gi == 0})
     # the optional integer line before the time
     d = dict(meshes()[1])
     d.update(GEOS[1])
@@ -110,7 +111,7 @@ def cases(tier, seed):
                           "gradp": [{"files": [[1], [0]], "nums": [4, 0]}, None],
                           "I_R": [None, {"files": [[2], [1], [0]], "nums": [1, 7, 3]}]},
               "ghost": 2, "nspecies": 2, "time": 0.5, "seed": seed, "int_line": False})
-    out.append({"desc": d, "opts": [[True, True, True], [False, False, False]], "source": "list", "schedules": True, "w": 8})
+    out.append({"desc": d, "opts": [[True, True, True], [False, False, False]], "source": "list", "schedules": True, "w": 8, "default_output": True})
     # 27 + 20 boxes over five files per data subset, each subset scattered differently
     m = scope.many_box_mesh()
     d = {"domain": m["domain"], "levels": m["levels"]}
@@ -231,8 +232,74 @@ def run_case(case, workdir):
         shutil.rmtree(o2, ignore_errors=True)
     if audit.snapshot(chk) != before:
         rec.fail("checkpoint_modified", {}, "")
+    if case.get("default_output"):
+        default_output_step(rec, case, workdir, chk, chk2plt, dh, dict(api_kw))
     rec.sample({"desc": desc, "species_source": case["source"], "options": case["opts"][:2]})
     return rec.result()
+
+
+DEFAULT_SPELLINGS = ["plain", "slash", "slashdot", "relative_dotslash", "symlink_latest", "renamed_restart", "cwd_dot", "renamed_with_plt"]
+
+
+def default_output_step(rec, case, workdir, chk, chk2plt, dh, api_kw):
+    """no output directory given: whatever name the tool picks, it is a NEW directory outside the checkpoint holding the
+    same tree as with an explicit output directory, for every way of naming the checkpoint (its own name may lack the
+    'chk' prefix: a renamed checkpoint, a 'latest' symlink, '.' from inside it)"""
+    from ..refmodel import tree_digest
+    gp, rx, fl = case["opts"][0]
+    kw = dict(api_kw, gradp=gp, species_reactions=rx, floor_massfracs=fl)
+    refout = os.path.join(workdir, "dflt_ref")
+    with vpool.controlled():
+        st, val = call(lambda: chk2plt(chk, pltdir=refout, **kw))
+    if st != "ok":
+        return
+    want = tree_digest(refout)
+    shutil.rmtree(refout)
+    cwd0 = os.getcwd()
+    for sp in DEFAULT_SPELLINGS:
+        box = os.path.join(workdir, "dflt_" + sp)
+        os.makedirs(box)
+        name = {"renamed_restart": "restart_a", "renamed_with_plt": "plt_from_run3"}.get(sp, "chk00007")
+        real = os.path.join(box, "store", name) if sp == "symlink_latest" else os.path.join(box, name)
+        shutil.copytree(chk, real)
+        arg, cwd = real, box
+        if sp == "slash":
+            arg = real + "/"
+        elif sp == "slashdot":
+            arg = real + "/."
+        elif sp == "relative_dotslash":
+            arg = "./" + name
+        elif sp == "symlink_latest":
+            os.symlink(os.path.join("store", name), os.path.join(box, "latest"))
+            arg = os.path.join(box, "latest")
+        elif sp == "cwd_dot":
+            arg, cwd = ".", real
+        real = os.path.realpath(real)
+        before = audit.snapshot(real)
+        had = set(os.path.join(dp, x) for dp, dn, fn in os.walk(box) for x in dn)
+        os.chdir(cwd)
+        try:
+            with vpool.controlled():
+                with audit.recording() as ev:
+                    st, val = call(lambda: chk2plt(arg, **kw))
+        finally:
+            os.chdir(cwd0)
+        sub = {"default_output": sp, "checkpoint_argument": arg if not arg.startswith(workdir) else arg[len(workdir):]}
+        rec.exe([dh, "default_output", sp], nontrivial=True)
+        wrote_in = [(e, p_) for e, p_ in ev if audit.inside(p_, real)]
+        if wrote_in or audit.snapshot(real) != before:
+            rec.fail("wrote_into_checkpoint", sub, "%s" % (wrote_in[:1] or "checkpoint tree changed"))
+        elif st == "exc":
+            # (declining to guess a name is not writing into the checkpoint; but the statement says a plotfile is written)
+            rec.fail("raised", sub, exc_text(val))
+        else:
+            new = [d_ for d_ in (os.path.join(dp, x) for dp, dn, fn in os.walk(box) for x in dn)
+                   if d_ not in had and os.path.isfile(os.path.join(d_, "Header")) and not audit.inside(os.path.realpath(d_), real)]
+            if len(new) != 1:
+                rec.fail("default_output_missing", sub, "%d new plotfile directories outside the checkpoint" % len(new))
+            elif tree_digest(new[0]) != want:
+                rec.fail("default_output_differs", sub, "the default output directory %s holds another tree than an explicit one" % os.path.relpath(new[0], box))
+        shutil.rmtree(box, ignore_errors=True)
 
 
 def _sig_integral_time(case, fail):
